@@ -347,4 +347,49 @@ theorem luaZrange : ∀ args, Bodies.luaZrange args = runGen Desc.luaZrange args
   · simp [Bodies.luaZrange, runGen, Desc.luaZrange, Arity.ok]
 
 end Shape
+
+/-! ## what the finishing functions can answer -/
+namespace Fin
+
+/-- close a `FinOk` goal: split on the result, then on the token shapes and the tests of the finishing function -/
+macro "fin_ok" : tactic => `(tactic|
+  (intro ts tv
+   simp only []
+   split <;> rename_i x heq <;> (repeat' (split at heq)) <;>
+    first
+      | (simp only [Except.ok.injEq] at heq; subst heq; simp [Bodies.mkSet]; done)
+      | (simp only [Except.error.injEq] at heq; subst heq; simp; done)
+      | (simp at heq; done)))
+
+theorem ping : FinOk Desc.ping := by unfold FinOk Desc.ping; fin_ok
+theorem select : FinOk Desc.select := by unfold FinOk Desc.select; fin_ok
+theorem auth : FinOk Desc.auth := by unfold FinOk Desc.auth; fin_ok
+theorem set : FinOk Desc.set := by unfold FinOk Desc.set; fin_ok
+theorem setex (px : Bool) : FinOk (Desc.setex px) := by unfold FinOk Desc.setex; fin_ok
+theorem expire (c : Bytes) : FinOk (Desc.expire c) := by unfold FinOk Desc.expire; fin_ok
+theorem getex : FinOk Desc.getex := by unfold FinOk Desc.getex; fin_ok
+theorem lmove : FinOk Desc.lmove := by unfold FinOk Desc.lmove; fin_ok
+theorem spop : FinOk Desc.spop := by unfold FinOk Desc.spop; fin_ok
+theorem zadd (a : Arg) : FinOk (Desc.zadd a) := by unfold FinOk Desc.zadd; fin_ok
+theorem zrange (c : Bytes) : FinOk (Desc.zrange c) := by unfold FinOk Desc.zrange; fin_ok
+theorem zrangebyscore (o c : Arg) (m : Lit) (u : Fmt) : FinOk (Desc.zrangebyscore o c m u) := by
+  unfold FinOk Desc.zrangebyscore; fin_ok
+theorem scan (c : Bytes) (k : Bool) (u : Fmt) : FinOk (Desc.scan c k u) := by unfold FinOk Desc.scan; fin_ok
+theorem sort : FinOk Desc.sort := by unfold FinOk Desc.sort; fin_ok
+theorem eval (c : Bytes) (l : Lit) : FinOk (Desc.eval c l) := by unfold FinOk Desc.eval; fin_ok
+theorem command : FinOk Desc.command := by unfold FinOk Desc.command; fin_ok
+theorem setrange : FinOk Desc.setrange := by unfold FinOk Desc.setrange; fin_ok
+theorem setbit : FinOk Desc.setbit := by unfold FinOk Desc.setbit; fin_ok
+theorem getbit : FinOk Desc.getbit := by unfold FinOk Desc.getbit; fin_ok
+theorem incrbyfloat : FinOk Desc.incrbyfloat := by unfold FinOk Desc.incrbyfloat; fin_ok
+theorem optStr (c : Bytes) : FinOk (Desc.optStr c) := by unfold FinOk Desc.optStr; fin_ok
+theorem aclGenpass : FinOk Desc.aclGenpass := by unfold FinOk Desc.aclGenpass; fin_ok
+theorem aclDryrun : FinOk Desc.aclDryrun := by unfold FinOk Desc.aclDryrun; fin_ok
+theorem aclLog : FinOk Desc.aclLog := by unfold FinOk Desc.aclLog; fin_ok
+theorem stub (t : Bytes) : FinOk (Desc.stub t) := by unfold FinOk Desc.stub; intro ts tv; simp
+theorem luaSet : FinOk Desc.luaSet := by unfold FinOk Desc.luaSet; fin_ok
+theorem luaExpire : FinOk Desc.luaExpire := by unfold FinOk Desc.luaExpire; fin_ok
+theorem luaZrange : FinOk Desc.luaZrange := by unfold FinOk Desc.luaZrange; fin_ok
+
+end Fin
 end RedisVerif.Grammar
